@@ -1,6 +1,7 @@
 (* drv_core.ml — builder / reader / spec correspondence for C01 C02 C03 C04 C06 C09 C10 C12 C15 C16.
    case kinds (first token):
-     build <sem> <fe> <ty> <rows> <cols> <ops>
+     build <sem> <fe> <ty> <rows> <cols> <ops>          sem = calls | extend | fromiter
+     build batches <fe> <ty> <rows> <cols> <ops>|<ops>|…   (several extend batches on one builder)
      get <ops> ; <probe hex>*            range <ops> ; <calls>/<calls>/…
      search <ops> ; <aexp tokens> ; ws|nows ; <calls>/…        getkey <ops> ; <value>*
    ops: i:<hexkey>:<val> | a:<hexkey>, comma separated, "_" = none. *)
@@ -80,27 +81,19 @@ let handle (line : string) : string =
   | "build" ->
     (match split_on ' ' rest with
      | ["batches"; _fe; ty; rows; cols; bstr] ->
-       (* several extend calls on one builder: each batch stops at its first rejected item, the builder lives on *)
+       (* several extend calls on one builder: each batch stops at its first rejected item, the builder lives on.
+          The composition is done in Coq: Builder.run_batches / batches_written (model) and Fst.spec_batches
+          (specification), proofs/BuilderBatches.v; this driver only parses and prints. *)
        let batches = List.map parse_ops (split_on '|' bstr) in
        let b0 = new_builder (n_of_string ty) (n_of_string rows) (n_of_string cols) in
-       let bw = Buffer.create 64 in
-       let b = ref b0 in
-       let mres = List.map (fun batch -> let (b', r) = run_extend !b batch in b := b';
-                              Buffer.add_string bw (string_of_n (b_count b')); Buffer.add_char bw ','; r) batches in
-       ignore mres;
-       let fin = b_finish_full summer !b in
+       let (b, _mres) = run_batches b0 batches in
+       let bw = String.concat "" (List.map (fun c -> string_of_n c ^ ",") (batches_written b0 batches)) in
+       let fin = b_finish_full summer b in
        let mstr = (match fin with Ok (bs, _) -> "bytes=" ^ hex_of_bytes bs | Panic -> "PANIC" | Err _ -> "nofst") in
-       let m_out = mstr ^ ";bw=" ^ Buffer.contents bw ^ ";st=na" in
-       (* spec: per batch the accepted prefix from the last accepted key so far *)
-       let last = ref None in
-       let acc = ref [] in
-       let sres = List.map (fun batch ->
-           let (p, r) = accepted_prefix !last batch in
-           acc := !acc @ p;
-           (match List.rev p with (OpInsert (k, _)) :: _ -> last := Some k | (OpAdd k) :: _ -> last := Some k | [] -> ());
-           str_res r) batches in
-       let content = spec_content None !acc [] in
-       "S:r=" ^ String.concat "," sres ^ ";c=" ^ str_kvs content ^ ";len=" ^ string_of_int (List.length content) ^ "\tM:" ^ m_out
+       let m_out = mstr ^ ";bw=" ^ bw ^ ";st=na" in
+       let ((acc, sres), _last) = spec_batches None batches in
+       let content = spec_content None acc [] in
+       "S:r=" ^ String.concat "," (List.map str_res sres) ^ ";c=" ^ str_kvs content ^ ";len=" ^ string_of_int (List.length content) ^ "\tM:" ^ m_out
      | [sem; fe; ty; rows; cols; ops] ->
        let ops = parse_ops ops in
        let b0 = new_builder (n_of_string ty) (n_of_string rows) (n_of_string cols) in
